@@ -1,5 +1,6 @@
 PROPERTY = {
     'id': 'C03',
+ 'extra': ['bounded.run_corpus.run'],
     'contract_modules': ['doctest_example', 'util_stream', 'checker', 'doctest_part', 'runner'],
     'functions': ['xdoctest.doctest_example:DocTest.run',
                   'xdoctest.checker:_strip_exception_details',
@@ -14,7 +15,8 @@ PROPERTY = {
               'run: an Exception raised by a part without a want is recorded (exc_info[1] IS that exception) and ends the loop; with a want '
               'check_exception is consulted exactly once with the LAST line of format_exception_only of that exception and the part\'s want; '
               'after an expected exception the loop goes on with the next part'],
-        'T': ['extract_exc_want / _EXCEPTION_RE (assumed contract; regex outside the decidable fragment)',
+        'B': ['the real parser and DocTest.run on every sequence of 1..2 (thorough 3) statement templates plus random longer ones, each run twice, against an oracle written from the property statements: executed statements and their order, verdict, recorded exception and failing part, logged output, renderable report, stdout restored, second run identical, module global untouched (bounded/run_corpus.py)'],
+             'T': ['extract_exc_want / _EXCEPTION_RE (assumed contract; regex outside the decidable fragment)',
               'check_output as the relation S.match (its own contract is C05)',
               'traceback.format_exception_only'],
     },
